@@ -96,6 +96,18 @@ Proof.
   destruct (limit <=? delay) eqn:E; cbn [andb snd]; [lia|]. apply Z.leb_gt in E. lia.
 Qed.
 
+Lemma dial_timeout_is_504 limit connect st : 0 < limit -> limit <= connect -> dial limit connect st = 504.
+Proof.
+  intros H1 H2. unfold dial.
+  replace (0 <? limit) with true by (symmetry; apply Z.ltb_lt; lia).
+  replace (limit <=? connect) with true by (symmetry; apply Z.leb_le; lia). reflexivity.
+Qed.
+Lemma dial_in_time limit connect st : connect < limit \/ limit = 0 -> 0 <= limit -> dial limit connect st = st.
+Proof.
+  intros H H0. unfold dial. destruct (0 <? limit) eqn:E1; [|reflexivity]. apply Z.ltb_lt in E1.
+  replace (limit <=? connect) with false by (symmetry; apply Z.leb_gt; lia). reflexivity.
+Qed.
+
 Lemma error_status_timeout e : error_status e = 504 <-> e = ENetTimeout.
 Proof. destruct e; cbn; split; intros H; try discriminate; reflexivity. Qed.
 
